@@ -392,7 +392,9 @@ class Engine:
             both_int = a.k != 'real' and b.k != 'real'
             if isinstance(op, ast.Div):
                 x, y = to_real(a), to_real(b)
-                if not st.spec:
+                numpy_floats = self.frame is not None and self.frame.contract.ghost.get('numpy_float_division') \
+                    and (a.k == 'real' or b.k == 'real')
+                if not st.spec and not numpy_floats:
                     self.oblige(st, "noexc:div0@L%d" % node.lineno, 'noexc', y != 0, node)
                     st.assume(y != 0)
                 return vreal(x / y)
